@@ -139,6 +139,19 @@ def run(ctx):
     ctx.ob('C18.R3', 'tower:merged-into-overrides', om.where(sf),
            'the expansion is merged into (not substituted for) the user overrides', ok, norm(st[0])[:100] if st else '')
 
+    tm2 = repo.mod('beartype._conf.conftest')
+    sk = tm2.defs.get('sanify_conf_kwargs')
+    ctx.require(sk is not None, 'anchor vanished: sanify_conf_kwargs')
+    calls = [c for c in walk_shallow(sk) if isinstance(c, ast.Call) and dotted(c.func) == 'sanify_conf_kwargs_is_pep484_tower']
+    guards = [norm(parent(parent(c)).test) if isinstance(parent(parent(c)), ast.If) else None for c in calls]
+    ctx.ob('C18.R3', 'tower:applied-when-enabled', tm2.where(sk),
+           'sanify_conf_kwargs folds the tower into hint_overrides exactly when is_pep484_tower is set',
+           len(calls) == 1 and guards == ["conf_kwargs['is_pep484_tower']"], f'calls under guards {guards}')
+    nw = repo.find_def('beartype._conf.confmain', 'BeartypeConf.__new__')
+    ctx.ob('C18.R3', 'tower:conf-constructor-sanifies', repo.mod('beartype._conf.confmain').where(nw),
+           'BeartypeConf.__new__ calls sanify_conf_kwargs on the options it stores',
+           any(isinstance(c, ast.Call) and dotted(c.func) == 'sanify_conf_kwargs' for c in walk_shallow(nw)), '')
+
     # ---- R4 ----------------------------------------------------------------------
     ctx.rule('C18.R4', 'violation_* / _is_violation_*_warn are read only by errmain (class selection), checkmake '
              '(raise/warn selection), the dataclass helper and beartype/_conf — never under _check/code, '
